@@ -10,7 +10,7 @@ Trace == ndJsonDeserialize(TraceFile)
 TInit == /\ i = 1 /\ RejectInit /\ TLCSet(2, 0)
          /\ LET r == Trace[1] IN
             /\ file = r.prior /\ prior = r.prior /\ script = r.script /\ script0 = r.script
-            /\ md5s = r.md5s /\ md5s0 = r.md5s /\ pc = "start" /\ reqs = <<>> /\ status = "running"
+            /\ md5s = r.md5s /\ md5s0 = r.md5s /\ pc = "start" /\ reqs = <<>> /\ status = "running" /\ cbLeak = 0
 Check1(r) ==
   /\ Clause(r.id, "reqs", reqs = r.reqs)
   /\ Clause(r.id, "status", status = r.status)
@@ -27,7 +27,7 @@ Consume == /\ pc = "end" /\ i <= Len(Trace)
            /\ IF i < Len(Trace)
               THEN LET r == Trace[i + 1] IN
                    /\ file' = r.prior /\ prior' = r.prior /\ script' = r.script /\ script0' = r.script
-                   /\ md5s' = r.md5s /\ md5s0' = r.md5s /\ pc' = "start" /\ reqs' = <<>> /\ status' = "running"
+                   /\ md5s' = r.md5s /\ md5s0' = r.md5s /\ pc' = "start" /\ reqs' = <<>> /\ status' = "running" /\ cbLeak' = 0
               ELSE UNCHANGED vars
 TNext == Step \/ Consume
 TSpec == TInit /\ [][TNext]_<<vars, i>>
